@@ -435,3 +435,37 @@ def leaf_num(rng):
     if r < 0.93:
         return ('cn', rng.choice(NUMS))
     return (rng.choice(['E', 'PI']), None, None)
+
+
+def c_int_typed(t):
+    """is the C expression generated for the tree of type int (a truth value, or arithmetic on truth values only)?"""
+    if t is None or t[0] in ('cn', 'ci'):
+        return False
+    k = t[0]
+    if k in ('EQ', 'NEQ', 'LT', 'LEQ', 'GT', 'GEQ', 'AND', 'OR', 'NOT'):
+        return True
+    if k in ('PLUS', 'MINUS', 'TIMES', 'DIVIDE'):
+        return c_int_typed(t[1]) and (t[2] is None or c_int_typed(t[2]))
+    if k == 'PIECEWISE':
+        cur = t
+        while True:
+            if not c_int_typed(cur[1][1]):
+                return False
+            r = cur[2]
+            if r is None:
+                return False            # NAN closes the conditional: double
+            if r[0] == 'OTHERWISE':
+                return c_int_typed(r[1])
+            if r[0] == 'PIECE':
+                return False
+            cur = r
+    return False
+
+
+def has_int_division(t):
+    """a division both of whose operands are of type int in the generated C: an integer division there"""
+    if t is None or t[0] in ('cn', 'ci'):
+        return False
+    if t[0] == 'DIVIDE' and t[2] is not None and c_int_typed(t[1]) and c_int_typed(t[2]):
+        return True
+    return any(has_int_division(c) for c in t[1:] if isinstance(c, tuple))
